@@ -381,6 +381,31 @@ def isolation_check(r, d, k, n_seq):
     return why, nontrivial
 
 
+def stage_repeat_check(r):
+    """a stage solved again on the same inputs - after other models were built in the process - gives the same
+    solutions with the same scores (the copy-number model of CYP2D6 weights one of its rows by variable name)"""
+    import c03
+    from aldy import cn
+    why = []
+    gds = [{"kind": "shipped", "name": "cyp2d6", "genome": "hg19"}, {"kind": "toy", "genome": "hg19"}]
+    descs = [c03.gen_cn_instance(r, gd) for gd in gds for _ in range(2)]
+
+    def solve(desc):
+        gene, gid, prof, configs, region_cov, fs = c03.build_inst(desc)
+        res = cn.solve_cn_model(gene, prof, configs, desc["max_cn"], region_cov, "cbc", None, fs)
+        return sorted((sorted(s.solution.items()), round(s.score, 9)) for s in res)
+
+    first = [solve(d_) for d_ in descs]
+    order = list(range(len(descs))) * 2
+    r.shuffle(order)
+    for i in order:
+        again = solve(descs[i])
+        if again != first[i]:
+            why.append(f"the copy-number model of {descs[i]['gene'].get('name', 'toy')} solved again in the same process gives {str(again)[:160]}, the first time {str(first[i])[:160]}")
+            break
+    return why
+
+
 def profile_history_check(r):
     """loading a shipped profile answers the same whatever was loaded before (custom neutral region, other gene,
     parameters): the shipped YAML is data, not state"""
@@ -551,6 +576,10 @@ def tie(ctx):
             stats["determinism_cases"] += 1
             for w in why:
                 violations.append({"why": w, "input": {"index": k}, "signature": "c14:" + " ".join(w.split(" ")[:4])})
+        for k in range(1 if quick else 6):
+            stats["stage_repeats"] += 1
+            for w in stage_repeat_check(r):
+                violations.append({"why": w, "input": {"index": k, "kind": "stage_repeat"}, "signature": "c14:stage_repeat_differs"})
         for k in range(2 if quick else 10):
             stats["profile_histories"] += 1
             for w in profile_history_check(r):
